@@ -82,11 +82,11 @@ def mainDefault : Option (Dflt V) → FDefault V
   | some (.func _ r) => .factory r          -- `inspect.isfunction(default)` ⇒ default_factory
   | some (.value v n) => .value v n
 
-/-- decorators.py:80-90 with fields.py:50,122-123: `name=` and `help=` are not parameters of
-    `helpers.field`, so both land in `custom_args`. -/
+/-- decorators.py:80-89 with fields.py:50,122-123: `help=` is not a parameter of `helpers.field`,
+    so it lands in `custom_args` (since a47a1e0 `name=` is no longer passed). -/
 def mainField (p : Param V) : Field V :=
   { name := p.name, ty := annClass p.ann, default := mainDefault p.dflt,
-    positional := p.kind == .posOnly, custom := ["name".toList, "help".toList], help := p.help }
+    positional := p.kind == .posOnly, custom := ["help".toList], help := p.help }
 
 /-- the field of the *equivalent hand-written dataclass* (no custom arguments). -/
 def plainField (p : Param V) : Field V :=
